@@ -637,7 +637,7 @@ func main() {
 		}
 	}
 
-	exhaustive := !m.Capped && len(infra) == 0
+	exhaustive := !m.Capped && len(infra) == 0 && len(m.Violations) == 0
 	cov := map[string]any{
 		"states":                        max64(nStates, 1),
 		"transitions":                   max64(m.Transitions, 1),
